@@ -27,6 +27,7 @@ type Env struct {
 	visKey    string // state component of the map-range visited set for `visited(k)`
 	loopAlloc Term   // alloc array at the start of the enclosing loop (for newsince)
 	inQuant   bool   // inside a quantifier body: loaded terms mention bound variables
+	loopEntry *Env   // environment of the enclosing loop entry (pre-state, loop variables at entry values)
 	depth     int
 }
 
@@ -833,6 +834,25 @@ func (e *Env) evalCall(n *ast.CallExpr) (SVal, error) {
 				return SVal{}, err
 			}
 			return SVal{Select(vc.cur(e.st, e.visKey), k.T, SBool), boolT}, nil
+		case "loopentry":
+			// value of an expression when the enclosing loop was entered
+			if e.loopEntry == nil {
+				return SVal{}, fmt.Errorf("spec expr: loopentry() outside a loop invariant")
+			}
+			if err := need(1); err != nil {
+				return SVal{}, err
+			}
+			le := *e.loopEntry
+			le.ctx = e.ctx
+			return le.Eval(n.Args[0])
+		case "cardvisited":
+			// number of keys of the ranged map visited so far
+			if e.visKey == "" {
+				return SVal{}, fmt.Errorf("spec expr: cardvisited() outside a map-range loop")
+			}
+			c := vc.comps[e.visKey]
+			ks, _ := splitArraySort(c.sort)
+			return SVal{App(SInt, vc.cardFn(ks), vc.cur(e.st, e.visKey)), types.Typ[types.Int]}, nil
 		case "max", "min":
 			a, err := e.Eval(n.Args[0])
 			if err != nil {
